@@ -139,6 +139,15 @@ pub fn gen(seed: u64, n: usize, tier: &str) -> Vec<Case> {
         if v == 1 { ops.push(opv("SET", vec![i(0), bv(b"newer"), bv(b"value"), i(-1)])); ops.push(op_t("ISAVE")); ops.push(op_t("RELOAD")); ops.push(op_t("DUMP")); }
         cases.push(Case { id: format!("blocked-save-{}", v), ops, outs: vec![] });
     }
+    // the temporary file of a save that never finished (the process died) is in the way of nobody
+    for v in 0..2 {
+        let mut ops = vec![];
+        small_dataset(&mut r, &mut ops, false);
+        if v == 1 { ops.push(op_t("ISAVE")); ops.push(opv("SET", vec![i(0), bv(b"newer"), bv(b"value"), i(-1)])); }
+        ops.push(op_t("STALETMP")); ops.push(op_t("DUMP"));
+        if v == 1 { ops.push(op_t("RELOAD")); ops.push(op_t("DUMP")); }
+        cases.push(Case { id: format!("stale-tmp-{}", v), ops, outs: vec![] });
+    }
     // SAVE while a BGSAVE is still writing (one temporary file for both before aa75b1d)
     for v in 0..2 {
         let mut ops = vec![];
@@ -226,6 +235,11 @@ pub fn judge(c: &Case, outs: &[Vec<Tok>]) -> Vec<String> {
             b"BGSWEEP" => {
                 if out.len() == 7 && out[1..].iter().any(|x| x != &i(1)) {
                     fails.push(format!("FAIL case={} op={} background saves with an injected write failure: accepted {:?}, flag cleared {:?}, dump unchanged {:?}, later bgsave accepted {:?}, newer data published {:?}, save/bgsave mixes {:?}", c.id, k, out[1], out[2], out[3], out[4], out[5], out[6]));
+                }
+            }
+            b"STALETMP" => {
+                if out.len() != 2 || out.iter().any(|x| x != &i(1)) {
+                    fails.push(format!("FAIL case={} op={} a save that finds the temporary file of a save that never finished: succeeded {:?}, the dump loads as the dataset and no temporary file is left {:?}", c.id, k, out.first(), out.get(1)));
                 }
             }
             b"SAVERACE" => {
